@@ -183,7 +183,10 @@ pub fn body(tcx: TyCtxt<'_>, ldid: LocalDefId) -> J {
                     mir::AssertKind::OverflowNeg(_) => "overflow:Neg".to_string(),
                     mir::AssertKind::DivisionByZero(_) => "div_zero".to_string(),
                     mir::AssertKind::RemainderByZero(_) => "rem_zero".to_string(),
-                    other => format!("{:?}", std::mem::discriminant(other)),
+                    mir::AssertKind::MisalignedPointerDereference { .. } => "ub_check:misaligned_ptr".to_string(),
+                    mir::AssertKind::NullPointerDereference => "ub_check:null_ptr".to_string(),
+                    mir::AssertKind::InvalidEnumConstruction(_) => "ub_check:invalid_enum".to_string(),
+                    other => format!("other:{:?}", std::mem::discriminant(other)),
                 };
                 let mut v = vec![
                     ("t", J::s("assert")),
